@@ -240,7 +240,22 @@ class RtaModel:
         self.ev = Evaluator(crate)
         self.top = T.unroot(self.ev.eval_body(self.body))
         self.where = f'{self.body.file}:{self.body.line}'
-        self._extract()
+        try:
+            self._extract()
+        except AnchorMissing as ex:
+            # the most common way to get here: the offsets are walked by a hand-written loop that can stop early
+            early = []
+            for e in self.ev.events:
+                if e['kind'] == 'loop' and e['depth'] == 0 and not e.get('reduced'):
+                    nid = e['node'].get('_nid')
+                    for x in self.ev.events:
+                        if x['kind'] in ('break', 'ret') and x['depth'] == 0 and nid in x['loops'] and x['pc']:
+                            early.append(f"{x['node'].get('file')}:{x['node'].get('line')}: the loop over the offsets is left when "
+                                         + ' && '.join(T.show(c) for c in x['pc'][-2:])[:200])
+            if early:
+                raise AnchorMissing('EARLY-EXIT: the per-offset results are not combined over the whole search space -- ' + '; '.join(early[:3])
+                                    + f' [{ex.what[:80]}]')
+            raise
 
     def apply_clo(self, clo, args):
         return self.ev.apply(clo, args)
